@@ -8,6 +8,9 @@ test -f /opt/veriftools/tla/tla2tools.jar || { echo "tla2tools.jar missing"; exi
 fail=0
 for f in spec/*.tla; do
   m=$(basename "$f" .tla)
+  # proof modules extend TLAPS.tla, which belongs to the proof manager (not to tla2tools): they are parsed and checked by tlapm
+  # inside the owning check (harness/apalache.py tlaps_stage) when it is installed
+  case "$m" in *Proof) continue;; esac
   out=$(cd spec && java -cp /opt/veriftools/tla/tla2tools.jar:/opt/veriftools/tla/CommunityModules-deps.jar tla2sany.SANY "$m.tla" 2>&1) || true
   if echo "$out" | grep -q -E "\*\*\* Errors|Fatal errors|Could not parse|Parse Error"; then
     echo "SANY rejected $m"; echo "$out" | tail -15; fail=1
